@@ -53,4 +53,8 @@ M = [
  ("c06-cli-update-always", ["C06"], "crates/decode1090/src/main.rs", "pos.alt.is_some_and(|alt| alt < 1000)", "pos.alt.is_none_or(|alt| alt < 1000)"),
  ("c06-filler-refreshes", ["C06"], R+"decode/cpr.rs", "        _ => (),\n    }\n}\n\n/**\n * This function is only used", "        _ => latest.timestamp = timestamp,\n    }\n}\n\n/**\n * This function is only used"),
  ("c06-gnss-skipped-pairing", ["C06"], R+"decode/cpr.rs", "            if (timestamp - latest_timestamp) < 10. {", "            if (timestamp - latest_timestamp) < 10. || airborne.alt.is_none() {"),
+ # ---- C11 end to end: the filters as main() builds and applies them
+ ("c11-main-df-format", ["C11"], J+"main.rs", '.map(|df| df.into_iter().map(|v| format!("{}", v)).collect()),', '.map(|df| df.into_iter().map(|v| format!("{:02}", v)).collect()),'),
+ ("c11-main-file-unfiltered", ["C11"], J+"main.rs", "        if let Ok(json) = serde_json::to_string(&msg) {\n            if is_in {\n                if options.verbose {\n                    println!(\"{}\", json);\n                }\n", "        if let Ok(json) = serde_json::to_string(&msg) {\n            if is_in && options.verbose {\n                println!(\"{}\", json);\n            }\n            if is_in || msg.message.is_some() {\n"),
+ ("c11-main-cli-filter-lost", ["C11"], J+"main.rs", "    if cli_options.aircraft_filter.is_some() {\n        options.aircraft_filter = cli_options.aircraft_filter;\n    }", "    if cli_options.aircraft_filter.is_some() && options.aircraft_filter.is_none() {\n        options.aircraft_filter = cli_options.aircraft_filter.map(|mut v| { v.truncate(1); v });\n    }"),
 ]
